@@ -4,14 +4,15 @@ package asa
 
 // Contracts for the deductive checker in /verif (comment-only file).
 
-// What counts as acceptable output of a command is defined by isValidOutput
-// itself (tables of known warnings); it is used as a function of its arguments.
-//vc:spec func validOut(cmd string, out string) bool
+// A reply is acceptable if each of its lines is empty, an INFO: or WARNING:
+// line, or matches a pattern of table validOutput whose key is a prefix of the
+// command.
+//vc:spec macro knownWarning(cmd string, l string) bool = exists p string :: (p in validOutput) && strings.HasPrefix(cmd, p) && reMatch(validOutput[p], l)
+//vc:spec macro lineOKASA(cmd string, l string) bool = l == "" || strings.HasPrefix(l, "INFO:") || strings.HasPrefix(l, "WARNING:") || knownWarning(cmd, l)
+//vc:spec macro validOutASA(cmd string, out string) bool = forall i int :: 0 <= i && i < splitCount(out, "\n") ==> lineOKASA(cmd, splitPart(out, "\n", i))
 //vc:func isValidOutput
-//vc:  trusted
-//vc:  nopanic
-//vc:  modifies nothing
-//vc:  ensures result == validOut(cmd, out)
+//vc:  invariant[C09] 1 "for _, line := range strings.Split(out" @linesSoFarAcceptable forall i int :: 0 <= i && i <= rangeindex ==> lineOKASA(cmd, splitPart(out, "\n", i))
+//vc:  ensures[C09] @trueOnlyIfEveryLineAcceptable result ==> validOutASA(cmd, out)
 
 // C09: all change commands accepted, then 'write memory' confirmed by [OK]
 //vc:func (*State).ApplyCommands
@@ -23,7 +24,7 @@ package asa
 
 // one reply is read and checked: echo stripped, remainder empty or acceptable
 //vc:func (*State).cmd$1
-//vc:  ensures[C09] @replyCheckedValid lastRemainder == "" || validOut(ci, lastRemainder)
+//vc:  ensures[C09] @replyCheckedValid lastRemainder == "" || validOutASA(ci, lastRemainder)
 //vc:  ensures[C09] pendingReplies == old(pendingReplies) - 1
 
 //vc:func (*State).cmd
